@@ -795,15 +795,68 @@ class Gen:
             self.force.update({"obs_handle": self.last_handle(), "what": "FULL"})
             self.mk_obs(0)
 
+    def sc_flatten_then_copy(self):
+        """operation related (any relation type) to a sub-circuit, flatten, then copy / nest / repeat the flat circuit"""
+        rng = self.rng
+        self.force["reps"] = {"fixed": 1}
+        self.mk_new(0)
+        blk = self.last_handle()
+        for _ in range(rng.randint(2, 3)):
+            self.force.update({"handle": blk, "kind": rng.choice(["Rx180", "Ry90", "Wait", "Reset", "Rym90"])})
+            if self.force["kind"] == "Wait":
+                self.force["dur"] = {"fixed": rng.choice([0.5, 1.0, 2.0, 3.0])}
+            n0 = len(self.steps)
+            self.mk_add_op(0)
+            if len(self.steps) > n0 and rng.random() < 0.8:
+                self.steps[-1]["q"] = [0]
+                from sim.model import kind_channels
+                n = self.model.entries[blk][-1]
+                n.ch = kind_channels(n.kind, [0], self.steps[-1].get("chan"))
+        self.force.pop("dur", None)
+        self.force["reps"] = {"fixed": rng.choice([1, 1, 2])}
+        self.mk_new(0)
+        par = self.last_handle()
+        if rng.random() < 0.5:
+            self.force["handle"] = par
+            self.mk_add_op(0)
+        self.force.update({"parent": par, "child": blk})
+        self.mk_add_sub(0)
+        k = len(self.model.entries[par]) - 1
+        self.force.update({"handle": par, "kind": rng.choice(["Hadamard", "Rx90", "Identity", "VirtualPark"])})
+        n0 = len(self.steps)
+        self.mk_add_op(0)
+        if len(self.steps) > n0 and self.steps[-1]["op"] == "ADD_OP":
+            rt = rng.choice(REL_TYPES)
+            self.steps[-1]["rel"] = [rt, k]
+            self.model.entries[par][-1].rel = (rt, self.model.entries[par][k])
+        self.force["handle"] = par
+        self.mk_flatten(0)
+        flat = self.last_handle()
+        r = rng.random()
+        if r < 0.4:
+            self.force["handle"] = flat
+            self.mk_copy(0)
+        elif r < 0.8:
+            self.force["reps"] = {"fixed": 1}
+            self.mk_new(0)
+            outer = self.last_handle()
+            self.force.update({"parent": outer, "child": flat})
+            self.mk_add_sub(0)
+        else:
+            self.force["handle"] = flat
+            self.mk_apply(0)
+        self.force.update({"obs_handle": self.last_handle(), "what": "FULL"})
+        self.mk_obs(0)
+
     SCENARIOS = {
-        "C11": [(0.15, "sc_lib_apply_flatten")],
+        "C11": [(0.15, "sc_lib_apply_flatten"), (0.10, "sc_flatten_then_copy")],
         "C06": [(0.10, "sc_lib_apply_flatten"), (0.10, "sc_nested_reps"), (0.06, "sc_unroll_then_copy"), (0.10, "sc_three_levels"), (0.06, "sc_registry_reps_export"), (0.04, "sc_annotated_block")],
         "C08": [(0.10, "sc_lib_apply_flatten"), (0.06, "sc_nested_reps"), (0.15, "sc_annotated_block"), (0.08, "sc_registry_reps_export")],
         "C07": [(0.12, "sc_lib_apply_flatten"), (0.05, "sc_nested_reps"), (0.06, "sc_annotated_block")],
-        "C05": [(0.15, "sc_unroll_then_copy"), (0.05, "sc_nested_reps"), (0.06, "sc_three_levels"), (0.05, "sc_annotated_block")],
-        "C02": [(0.12, "sc_nested_reps")],
-        "C01": [(0.06, "sc_nested_reps"), (0.04, "sc_unroll_then_copy")],
-        "C03": [(0.05, "sc_nested_reps"), (0.05, "sc_unroll_then_copy"), (0.04, "sc_lib_apply_flatten"), (0.03, "sc_three_levels"), (0.05, "sc_registry_reps_export")],
+        "C05": [(0.15, "sc_unroll_then_copy"), (0.05, "sc_nested_reps"), (0.06, "sc_three_levels"), (0.05, "sc_annotated_block"), (0.08, "sc_flatten_then_copy")],
+        "C02": [(0.12, "sc_nested_reps"), (0.05, "sc_flatten_then_copy")],
+        "C01": [(0.06, "sc_nested_reps"), (0.04, "sc_unroll_then_copy"), (0.06, "sc_flatten_then_copy")],
+        "C03": [(0.05, "sc_nested_reps"), (0.05, "sc_unroll_then_copy"), (0.04, "sc_lib_apply_flatten"), (0.03, "sc_three_levels"), (0.05, "sc_registry_reps_export"), (0.03, "sc_flatten_then_copy")],
         "C04": [(0.05, "sc_nested_reps")],
         "C18": [(0.04, "sc_lib_apply_flatten")],
         "C15": [(0.08, "sc_registry_reps_export")],
